@@ -56,6 +56,20 @@ fn locator(addr4: [u8; 4], port: u32) -> Vec<u8> {
 
 /// SPDP announcement of a participant that does not exist in the simulation
 pub fn spdp_datagram(id: u32, sn: i64, domain_in_msg: Option<i32>, tag: Option<&str>, lease_ns: u64) -> Vec<u8> {
+    spdp_datagram_ex(id, sn, domain_in_msg, tag, lease_ns, 1, 7410, 0x0000_0003)
+}
+
+/// same with a chosen locator kind / port for all its locators and a chosen set of builtin endpoints (with the
+/// discovery readers in the set, the receiving participant will send its endpoint announcements to those locators)
+#[allow(clippy::too_many_arguments)]
+pub fn spdp_datagram_ex(id: u32, sn: i64, domain_in_msg: Option<i32>, tag: Option<&str>, lease_ns: u64, loc_kind: i32, loc_port: u32, endpoint_set: u32) -> Vec<u8> {
+    let locator = |addr4: [u8; 4], port: u32| -> Vec<u8> {
+        let mut v = loc_kind.to_le_bytes().to_vec();
+        v.extend_from_slice(&(if loc_port == 7410 { port } else { loc_port }).to_le_bytes());
+        v.extend_from_slice(&[0; 12]);
+        v.extend_from_slice(&addr4);
+        v
+    };
     let prefix = foreign_prefix(id);
     let mut pl: Vec<u8> = vec![0x00, 0x03, 0x00, 0x00]; // PL_CDR_LE
     pl.extend(param(0x0050, &foreign_handle(id)));
@@ -72,7 +86,7 @@ pub fn spdp_datagram(id: u32, sn: i64, domain_in_msg: Option<i32>, tag: Option<&
     pl.extend(param(0x0016, &[0x01, 0x14]));
     pl.extend(param(0x0032, &locator([10, 9, 9, (id % 250) as u8 + 1], 7410)));
     pl.extend(param(0x0031, &locator([10, 9, 9, (id % 250) as u8 + 1], 7411)));
-    pl.extend(param(0x0058, &0x0000_0003u32.to_le_bytes())); // participant announcer + detector only
+    pl.extend(param(0x0058, &endpoint_set.to_le_bytes()));
     let mut lease = ((lease_ns / 1_000_000_000) as i32).to_le_bytes().to_vec();
     lease.extend_from_slice(&((lease_ns % 1_000_000_000) as u32).to_le_bytes());
     pl.extend(param(0x0002, &lease));
